@@ -707,6 +707,9 @@ class Assembler:
     def result(self):
         return '\n'.join(self.lines) + '\n'
 
+    def canary_lines(self):
+        return [i + 1 for i, l in enumerate(self.lines) if '//@canary' in l]
+
 
 def assemble(unit, outdir):
     a = Assembler(unit)
@@ -715,7 +718,7 @@ def assemble(unit, outdir):
     rs = os.path.join(outdir, unit + '.rs')
     with open(rs, 'w') as f:
         f.write(a.result())
-    meta = {'unit': unit, 'file': rs, 'linemap': a.linemap, 'functions': a.functions, 'rewrites': a.rewrites,
+    meta = {'unit': unit, 'file': rs, 'canary_lines': a.canary_lines(), 'linemap': a.linemap, 'functions': a.functions, 'rewrites': a.rewrites,
             'hashes': a.hashes, 'dropped': a.dropped}
     with open(os.path.join(outdir, unit + '.meta.json'), 'w') as f:
         json.dump(meta, f, indent=1)
